@@ -5,8 +5,10 @@ import (
 	"encoding/json"
 	"fmt"
 	"os"
+	"strings"
 
 	"github.com/tetratelabs/wazero"
+	"github.com/tetratelabs/wazero/experimental"
 	c "github.com/tetratelabs/wazero/internal/zz_verif/common"
 )
 
@@ -36,7 +38,117 @@ func probeB() []byte {
 	return m.Bytes()
 }
 
+// Fixed witness "alloc-importer" / "alloc-definer": with a user-supplied memory allocator
+// (experimental.WithMemoryAllocator) closing ANY instance bound to a memory hands that memory to LinearMemory.Free,
+// also when another live instance still uses it. A defines and exports a memory, B imports it. A stores 111;
+// the importer B (or the definer A) is closed; the other, live instance loads: it reads the freed buffer.
+// The allocator here is backed by Go slices and Free poisons the buffer with 0xdd (an mmap-backed one unmaps it).
+type poisonMem struct {
+	buf   []byte
+	freed *int
+}
+
+func (l *poisonMem) Reallocate(size uint64) []byte {
+	if uint64(cap(l.buf)) < size {
+		nb := make([]byte, size)
+		copy(nb, l.buf)
+		l.buf = nb
+	}
+	l.buf = l.buf[:size]
+	return l.buf
+}
+
+func (l *poisonMem) Free() {
+	*l.freed++
+	b := l.buf[:cap(l.buf)]
+	for i := range b {
+		b[i] = 0xdd
+	}
+}
+
+func allocA() []byte {
+	m := &c.Mod{}
+	mx := uint32(4)
+	m.Types = [][]byte{c.FT(c.B(c.I32), c.B(c.I32)), c.FT(c.B(c.I32, c.I32), nil)}
+	m.Funcs = [][]byte{c.U32(0), c.U32(1)}
+	m.Mems = [][]byte{c.MemLimits(1, &mx)}
+	m.Exports = [][]byte{c.Export("mem", 2, 0), c.Export("load", 0, 0), c.Export("store", 0, 1)}
+	m.Codes = [][]byte{c.Code(nil, c.LocalGet(0), c.B(0x28), c.MemArg(2, 0)),
+		c.Code(nil, c.LocalGet(0), c.LocalGet(1), c.B(0x36), c.MemArg(2, 0))}
+	return m.Bytes()
+}
+
+func allocB() []byte {
+	m := &c.Mod{}
+	mx := uint32(4)
+	m.Types = [][]byte{c.FT(c.B(c.I32), c.B(c.I32))}
+	m.Imports = [][]byte{c.Cat(c.Name("a"), c.Name("mem"), c.B(2), c.MemLimits(1, &mx))}
+	m.Funcs = [][]byte{c.U32(0)}
+	m.Exports = [][]byte{c.Export("load", 0, 0)}
+	m.Codes = [][]byte{c.Code(nil, c.LocalGet(0), c.B(0x28), c.MemArg(2, 0))}
+	return m.Bytes()
+}
+
+func probeAlloc(ctx0 context.Context, engine string, h *History) {
+	obs := make([]string, 4)
+	twin := make([]string, 4)
+	run := func(doClose bool, out []string) {
+		freed := 0
+		ctx := experimental.WithMemoryAllocator(ctx0, experimental.MemoryAllocatorFunc(func(cap, max uint64) experimental.LinearMemory {
+			return &poisonMem{buf: make([]byte, 0, cap), freed: &freed}
+		}))
+		var rc wazero.RuntimeConfig
+		if engine == "compiler" {
+			rc = wazero.NewRuntimeConfigCompiler()
+		} else {
+			rc = wazero.NewRuntimeConfigInterpreter()
+		}
+		r := wazero.NewRuntimeWithConfig(ctx, rc)
+		a, err := r.InstantiateWithConfig(ctx, allocA(), wazero.NewModuleConfig().WithName("a"))
+		if err != nil {
+			panic(err)
+		}
+		b, err := r.InstantiateWithConfig(ctx, allocB(), wazero.NewModuleConfig().WithName("b"))
+		if err != nil {
+			panic(err)
+		}
+		live, dead := a, b
+		if h.Probe == "alloc-definer" {
+			live, dead = b, a
+		}
+		call := func(f func() ([]uint64, error)) string {
+			res, err := f()
+			if err != nil {
+				return "e:" + errClass(err)
+			}
+			if len(res) == 0 {
+				return "ok"
+			}
+			return fmt.Sprintf("v:%d", uint32(res[0]))
+		}
+		fmt.Fprintf(os.Stdout, "@0\n")
+		out[0] = call(func() ([]uint64, error) { return a.ExportedFunction("store").Call(ctx, 8, 111) })
+		fmt.Fprintf(os.Stdout, "@1\n")
+		out[1] = call(func() ([]uint64, error) { return live.ExportedFunction("load").Call(ctx, 8) })
+		fmt.Fprintf(os.Stdout, "@2\n")
+		if doClose {
+			dead.Close(ctx)
+		}
+		out[2] = fmt.Sprintf("ok:free-calls=%d", freed)
+		fmt.Fprintf(os.Stdout, "@3\n")
+		out[3] = call(func() ([]uint64, error) { return live.ExportedFunction("load").Call(ctx, 8) })
+	}
+	run(false, twin)
+	run(true, obs)
+	b, _ := json.Marshal(map[string]any{"obs": obs, "twin": twin})
+	fmt.Fprintf(os.Stdout, "%s\n", b)
+}
+
 func probe(ctx context.Context, engine string, h *History) {
+	if strings.HasPrefix(h.Probe, "alloc") {
+		probeAlloc(ctx, engine, h)
+		return
+	}
 	obs := make([]string, 4)
 	twin := make([]string, 4)
 	run := func(closeB bool, out []string) {
